@@ -31,8 +31,30 @@ def run_ob(name, entry_q, dq, entry_t=None, dt=None, unwind=64, timeout_q=900, t
     return ob
 
 
-PROPS = {
-    "C01": {
+DAGPKG = "./internal/dag"
+C13_FLAGS = ["-unwind", "16", "-solver", "cvc5", "-fallback", "z3", "-query-timeout-ms", "5000", "-stub", "@/internal/dag.substituteCommands=subst-cmd"]
+C13_GROUPS = [("schedule", {"tree_depth": 2}), ("env", {"tree_depth": 2}), ("tags", {"tree_depth": 1}), ("strings", {"fields": "params logDir smtp.host mail.from preconditions"}),
+              ("step", {"command_tree_depth": 1}), ("executor", {"config_spine_depth": 3}), ("call", {}), ("handlers", {})]
+
+
+def c13_obs(prop):
+    obs = []
+    for g, b in C13_GROUPS:
+        ob = {"name": "%s.build/%s" % (prop, g), "pkg": DAGPKG, "replay": "R1",
+              "quick": {"entry": "VerifHarness_%s_%s" % (prop, g), "flags": C13_FLAGS, "timeout_s": 1200, "sample_paths": 1,
+                        "bounds": dict({"L": 6, "list_len": "0..2", "map_entries": "0..2", "option_sets": "LoadYAML/LoadWithoutEval, LoadMetadata, Load"}, **b)}}
+        if prop == "C13":
+            ob["label_prefixes"] = ["C13."]
+            ob["must_reach"] = ["end", "accepted"] + ([] if g in ("tags",) else ["rejected"])
+        else:
+            ob["label_prefixes"] = ["C19."]
+            ob["ignore_panics"] = True
+            ob["must_assert"] = ["C19.pure/non-evaluating-load-executes-no-command"]
+        obs.append(ob)
+    return obs
+
+
+PROPS = {    "C01": {
         "obligations": [
             {"name": "C01.gate", "pkg": SCHED, "replay": "R1",
              "quick": {"entry": "VerifHarness_C01_gate3", "flags": ["-unwind", "16"], "bounds": {"N": 3}},
@@ -112,6 +134,22 @@ PROPS = {
         ],
         "assumptions": ["distinct step names", "recorded steps listed in a topological order (as the builder produces them is NOT assumed by the code; the harness builds deps j<i)"],
         "outside_claim": COMMON_OUTSIDE + ["parameter values of the recorded run (regexp submatch semantics; DESIGN section 7)"],
+    },
+    "C13": {
+        "obligations": c13_obs("C13"),
+        "assumptions": ["the claim starts at the decoded definition (yaml.v2 / mapstructure are outside): typed fields conform to their Go types, list items may be nil, untyped fields range over the tree grammar nil|string|int|bool|float64|[]any|map[any]any",
+                        "one field group at a time carries the full menu, every other field is held at a fixed well-formed value",
+                        "cron.Parser.Parse: real parser for constant specs; symbolic specs shorter than 9 bytes are invalid (five fields need 9 bytes, descriptors are disabled)",
+                        "dag.substituteCommands summarised (I/O shell): no backtick segment => identity, otherwise ghost exec event + arbitrary result",
+                        "regexp FindAllString/FindAllStringSubmatch/ReplaceAllString over-approximated (DESIGN 3.1); unix.SignalNum exact (Linux table)",
+                        "parameter parsing under evaluation (Load with params) is not explored (DESIGN section 7)"],
+        "outside_claim": COMMON_OUTSIDE + ["arbitrary bytes: yaml.v2 and mapstructure decoding", "base-config merge (mergo)", "C13.serial (status JSON) and C13.precond (EvalConditions on accepted DAGs): see obligations listed in evidence"],
+    },
+    "C19": {
+        "obligations": c13_obs("C19"),
+        "assumptions": ["same harness and environment models as C13; command execution is observed as ghost exec events of the os/exec model and of the substituteCommands summary, environment changes as ghost setenv events of the os.Setenv model",
+                        "native replay plants canary executables on PATH for every backtick segment of the counterexample and diffs os.Environ()"],
+        "outside_claim": COMMON_OUTSIDE + ["yaml.v2 / mapstructure", "base-config merge", "effects of reading the environment (os.ExpandEnv)"],
     },
     "C14": {
         "obligations": [
